@@ -136,6 +136,17 @@ func runC02(c *ctx) {
 			}
 		}
 	}
+	// every identifier set with a threshold that makes the interpolation points matter (t >= 1), both variants
+	for si, setName := range setNames {
+		for _, nt := range [][2]int{{3, 1}, {4, 2}} {
+			k++
+			names := idSets[setName][:nt[0]]
+			sp := specFrostKeygen(idsOf(names...), nt[1], si%2 == 1, []byte(fmt.Sprintf("c02-ids-%d", k)))
+			pol := pols[k%len(pols)]
+			seed := c.res.Seed*7919 + int64(k)
+			c.c02Check(sp, names, seed, pol, runToEnd(sp, seed, pol))
+		}
+	}
 	// Doerner
 	nd := 2
 	if c.thorough() {
